@@ -77,7 +77,9 @@ OpLine(s, e, ln) ==
   LET op    == OpOf(e)
       pre   == SetKey(s.cur, op)
       post  == Struct(e, pre.key)
-      legal == IF op.kind = "ins" THEN op.n \in Ids(s.cur) /\ op.n \notin s.members
+      (* inserting a node object that is already a member with its own key ("register again") is a
+         duplicate insert like any other: it fails and changes nothing *)
+      legal == IF op.kind = "ins" THEN op.n \in Ids(s.cur) /\ (op.n \notin s.members \/ s.cur.key[op.n] = op.key)
                                   ELSE op.n \in s.members
       sc    == Scan(post, post.root, NULL)
       S1    == SetAfter(pre, s.members, op)
